@@ -151,6 +151,51 @@ class ClassInfo:
         return self.module.name + '.' + self.name
 
 
+def _fold_return_temporaries(tree):
+    """Program-model normalisation (copy propagation of one shape): `t = <e>; return t`, with t a
+    plain local all of whose occurrences are such pairs, is read as `return <e>`.  The rules
+    that inspect what a function returns then see the expression, however it was spelled."""
+    for fn in ast.walk(tree):
+        if not isinstance(fn, (ast.FunctionDef, ast.AsyncFunctionDef)):
+            continue
+        counts = {}
+        for n in ast.walk(fn):
+            if isinstance(n, ast.Name):
+                counts[n.id] = counts.get(n.id, 0) + 1
+        params = {a.arg for a in fn.args.posonlyargs + fn.args.args + fn.args.kwonlyargs}
+        blocks = []
+        for node in ast.walk(fn):
+            for fld in ('body', 'orelse', 'finalbody'):
+                blk = getattr(node, fld, None)
+                if isinstance(blk, list) and blk and isinstance(blk[0], ast.stmt):
+                    blocks.append(blk)
+            if isinstance(node, ast.Try):
+                for h in node.handlers:
+                    blocks.append(h.body)
+
+        def pair(a, b):
+            return isinstance(a, ast.Assign) and len(a.targets) == 1 and \
+                isinstance(a.targets[0], ast.Name) and isinstance(b, ast.Return) and \
+                isinstance(b.value, ast.Name) and b.value.id == a.targets[0].id and \
+                b.value.id not in params
+        pairs = {}
+        for body in blocks:
+            for a, b in zip(body, body[1:]):
+                if pair(a, b):
+                    pairs[b.value.id] = pairs.get(b.value.id, 0) + 1
+        ok = {nm for nm, k in pairs.items() if counts.get(nm) == 2 * k}
+        for body in blocks:
+            i = 0
+            while i + 1 < len(body):
+                a, b = body[i], body[i + 1]
+                if pair(a, b) and b.value.id in ok:
+                    b.value = a.value
+                    del body[i]
+                    continue
+                i += 1
+    return tree
+
+
 class Module:
     def __init__(self, repo, name, path, relpath):
         self.repo = repo
@@ -161,7 +206,7 @@ class Module:
             self.source = f.read()
         with warnings.catch_warnings():
             warnings.simplefilter('ignore')
-            self.tree = ast.parse(self.source, filename=path)
+            self.tree = _fold_return_temporaries(ast.parse(self.source, filename=path))
         self.imports = {}
         self.consts = {}
         self.functions = {}
